@@ -104,6 +104,8 @@ func (dr *DialogueRunner) Next(choice int) (*DialogueElement, error) {
 				statements: statements,
 			})
 		}
+		// the choice has been consumed: a later call must not apply one again
+		dr.lastStatement = nil
 	}
 
 	if dr.statementsToRun.Size() == 0 {
@@ -180,6 +182,8 @@ func (dr *DialogueRunner) Next(choice int) (*DialogueElement, error) {
 		if stop, err := dr.executeCommandStatement(nextStatement.CommandStatement); err != nil {
 			return nil, fmt.Errorf("failed to execute command statement: %w", err)
 		} else if stop {
+			// <<stop>> ends the dialogue: nothing that was pending may run afterwards
+			dr.statementsToRun.Clear()
 			return nil, nil
 		} else if dr.commandErrChan != nil {
 			return nil, ErrWaitingForCommandCompletion
